@@ -197,6 +197,19 @@ Definition excess_of (fl : list (edge * Z)) (p : list node) : Z := excess (map f
 Definition excess_pos_dec (fl : list (edge * Z)) (p : list node) : bool :=
   forallb (fun e => existsb (eqe e) (map fst fl)) (pairs p) && (0 <? excess_of fl p).
 
+(* inexact flows (intervals [lb, ub] per edge), compute_inexact_flow_decomp_safe_paths: the worst-case excess
+   lb(first edge) - (upper bounds of what may leak at the inner nodes) kept by the two-pointer scan *)
+Definition inexact_excess (G : graph) (lb ub : edge -> Z) (p : list node) : Z :=
+  match p with
+  | u0 :: u1 :: r => lb (u0, u1) - leak G ub (u1 :: r)
+  | _ => 0
+  end.
+Definition inexact_excess_of (bl : list (edge * (Z * Z))) (p : list node) : Z :=
+  inexact_excess (map fst bl) (flow_of (map (fun x => (fst x, fst (snd x))) bl))
+                 (flow_of (map (fun x => (fst x, snd (snd x))) bl)) p.
+Definition inexact_pos_dec (bl : list (edge * (Z * Z))) (p : list node) : bool :=
+  forallb (fun e => existsb (eqe e) (map fst bl)) (pairs p) && (0 <? inexact_excess_of bl p).
+
 Fixpoint prefixb (a b : list node) : bool :=
   match a, b with
   | [], _ => true
